@@ -220,6 +220,56 @@ print(json.dumps(out))
 '''
 
 
+CROSS_A = r'''
+import sys, json, pickle
+sys.path.insert(0, %r)
+import values_h as V
+specs = json.load(open(sys.argv[1]))
+tasks = [V.construct(s)[1] for s in specs]
+for t in tasks:
+    hash(t)
+pickle.dump(tasks, open(sys.argv[2], 'wb'))
+'''
+CROSS_B = r'''
+import sys, json, pickle
+sys.path.insert(0, %r)
+import values_h as V
+from labtech.tasks import get_direct_dependencies
+specs = json.load(open(sys.argv[1]))
+copies = pickle.load(open(sys.argv[2], 'rb'))
+out = []
+for i, (s, c) in enumerate(zip(specs, copies)):
+    f = V.construct(s)[1]
+    if not (c == f):
+        out.append([i, 'copy-unequal-across-processes'])
+    elif hash(c) != hash(f):
+        out.append([i, 'copy-hash-differs-across-processes'])
+    elif c not in {f} or f not in {c: 1}:
+        out.append([i, 'copy-not-found-in-set'])
+    elif c.cache_key != f.cache_key:
+        out.append([i, 'copy-key-differs'])
+    elif list(get_direct_dependencies(c)) != list(get_direct_dependencies(f)):
+        out.append([i, 'copy-deps-differ'])
+print(json.dumps(out))
+'''
+
+
+def cross_process_copies(specs):
+    """Pickle tasks in one interpreter, unpickle them in another one with a different hash seed, compare with freshly
+    built tasks there (as happens when a task crosses a process boundary under the spawn backend)."""
+    here = os.path.dirname(os.path.abspath(__file__))
+    d = subdir('vals')
+    sp, pk = os.path.join(d, 'cross_specs.json'), os.path.join(d, 'cross.pickle')
+    with open(sp, 'w') as f:
+        json.dump(specs, f)
+    for code, seed_ in ((CROSS_A, 11), (CROSS_B, 22)):
+        env = dict(os.environ, PYTHONHASHSEED=str(seed_), PYTHONPATH='/repo:' + here)
+        out = subprocess.run([PY, '-c', code % here, sp, pk], env=env, stdout=subprocess.PIPE, stderr=subprocess.PIPE, text=True, timeout=600)
+        if out.returncode != 0:
+            raise RuntimeError(out.stderr[-2000:])
+    return json.loads(out.stdout.strip().splitlines()[-1])
+
+
 def fresh_keys(specs, hashseed):
     d = subdir('vals')
     p = os.path.join(d, f'specs_{hashseed}.json')
@@ -356,6 +406,12 @@ def run(prop, report, tier, seed, replay=None):
         kept.append(spec)
         if depth(spec) >= 2:
             distinct.add(json.dumps(spec))
+    if prop == 'C15' and replay is None:
+        okspecs = [sp for sp in kept if V.construct(sp)[0] == 'ok' and not has_nan(sp)][:200 if tier == 'quick' else 3000]
+        for i, sig in cross_process_copies(okspecs):
+            report.violation(f'C15:{sig}', 'a task pickled in one interpreter and unpickled in another (different hash seed) does not behave '
+                                           'like an equal freshly built task there (==, hash, set membership, cache_key, dependencies)', dict(spec=okspecs[i]))
+        dist['cross_process_copies'] = len(okspecs)
     if prop == 'C09' and (replay is None or replay['input'].get('level') == 'store'):
         stage_store_roundtrip(report, tier, rng, dist)
     if prop == 'C07' and replay is None:
